@@ -102,6 +102,21 @@ CYCLE_SEEDS = {
                 '(assert (fp.eq (fp.add RNE f f) (fp.neg f)))\n',
     'sort_children': '(declare-const x Int)\n'
                      '(assert (= (+ (* x x) x) (+ x (* x x))))\n',
+    # a defined function whose body is a call of itself with its own
+    # parameters (an intermediate input of a reduction): inlining an
+    # application yields the application
+    'define_self_call': '(declare-fun f (Int) Int)\n'
+                        '(define-fun f ((a Int)) Int (f a))\n'
+                        '(declare-const x Int)\n(assert (> (f x) 0))\n',
+    'define_self_nullary': '(define-fun f () Int f)\n'
+                           '(declare-const x Int)\n(assert (> (+ f x) 0))\n',
+    # a let binder that shadows a declared symbol
+    'let_shadows_declared': '(declare-const x Int)\n(declare-const z Int)\n'
+                            '(assert (let ((z x)) (> z x)))\n',
+    'let_shadows_declared_sort': '(declare-const x Int)\n'
+                                 '(declare-const z Bool)\n'
+                                 '(assert (let ((z (+ x 1))) (> z x)))\n'
+                                 '(assert z)\n',
 }
 
 
